@@ -89,9 +89,10 @@ type describeResponse struct {
 }
 
 type famDesc struct {
-	Name   string  `json:"name"`
-	Size   int64   `json:"size"`
-	Groups []group `json:"groups"`
+	Name    string  `json:"name"`
+	Size    int64   `json:"size"`
+	Groups  []group `json:"groups"`
+	PerTask int64   `json:"per_task,omitempty"`
 }
 
 // ---- progress marker ----
@@ -595,6 +596,12 @@ func runEnum(t task, a *acc) {
 				a.res.MaxAlloc = delta
 			}
 			thr := uint64(memConst) + cnt*e.fixed
+			if cnt == 1 && cases[lo] != nil {
+				// a single call measured on its own: below its own allowance there is nothing to re-measure
+				if al := allowance(e, len(cases[lo])); al > thr {
+					thr = al
+				}
+			}
 			if delta > thr && !bad || (bad && delta > thr+1<<20) {
 				a.trips++
 				a.checkRange(t, e, ei, cases, skip, lo, hi)
@@ -726,7 +733,7 @@ func describe() *describeResponse {
 		}
 	}
 	for _, f := range families {
-		d.Families = append(d.Families, famDesc{Name: f.name, Size: f.size, Groups: f.groups})
+		d.Families = append(d.Families, famDesc{Name: f.name, Size: f.size, Groups: f.groups, PerTask: f.perTask})
 	}
 	for _, s := range seeds {
 		d.Seeds = append(d.Seeds, fmt.Sprintf("%s [%d bytes] %s", s.name, len(s.data), inputHex(s.data)))
